@@ -4,6 +4,6 @@ namespace TbbVerif.Generated.C07
 open TbbVerif.Cint
 def initialBufferSize : Nat := 4
 def tokenBits : Nat := 64
-def bufferCleanup : Bool := false
+def bufferCleanup : Bool := true
 
 end TbbVerif.Generated.C07
